@@ -131,3 +131,30 @@ Proof.
     + inversion H. subst e1. destruct (IHa e W eq_refl) as [[E1 E2] | E]; [left | right; exact E].
       split; [exact E1 | simpl; rewrite E2; reflexivity].
 Qed.
+
+(* compile only ever fails with the exceptions of the construct stage *)
+Lemma compile_err_kind vr : forall p e, compile vr p = Err e -> e = EAssertion \/ e = ETypeError \/ e = EFuel.
+Proof.
+  induction p as [path c k|a|k v|a IHa b IHb|a IHa b IHb|a IHa]; intros e H; simpl in H.
+  - destruct path as [|n r]; [inversion H; auto|].
+    destruct k; simpl in H; try congruence; destruct (cmp_eqb c CEq); simpl in H; inversion H; auto.
+  - congruence.
+  - congruence.
+  - destruct (compile vr a) as [x|e1]; simpl in H; [|inversion H; subst; apply IHa; reflexivity].
+    destruct (compile vr b) as [y|e2]; simpl in H; [|inversion H; subst; apply IHb; reflexivity].
+    unfold junction in H. destruct (mk_junction_err _ _ _ _ _ H); auto.
+  - destruct (compile vr a) as [x|e1]; simpl in H; [|inversion H; subst; apply IHa; reflexivity].
+    destruct (compile vr b) as [y|e2]; simpl in H; [|inversion H; subst; apply IHb; reflexivity].
+    unfold junction in H. destruct (mk_junction_err _ _ _ _ _ H); auto.
+  - destruct (compile vr a) as [x|e1]; simpl in H; [|inversion H; subst; apply IHa; reflexivity].
+    destruct x; simpl in H; inversion H; auto.
+Qed.
+
+(* with escaped constants (60fb795) the execute stage cannot fail *)
+Lemma no_sql_error db p : model_query current db p <> Err ESql.
+Proof.
+  unfold model_query, compile_top. destruct (has_shadow p); simpl; [congruence|].
+  destruct (compile current p) as [q|e] eqn:E; simpl; [congruence|].
+  intro H. inversion H. subst e.
+  destruct (compile_err_kind current p ESql E) as [K | [K | K]]; congruence.
+Qed.
